@@ -99,6 +99,22 @@ theorem merged_pair_equivalent (g : Grammar) (A B : Table) (f : SMap) (auxA auxB
     (∃ fuel, runLoop B fuel { stack := [], toks := toks } = .accepted t) :=
   merged_tables_equivalent g A B f auxA auxB P ann start hsim hsafeB hrelB hcovA hokA hnames toks htoks t
 
+/-- `merged_pair_equivalent_up_to_names`: the form the check evaluates — the validations run on the two
+tables with their non-terminals renamed by untrusted maps (a rule aliased at every use carries the
+alias as its symbol name; names of non-terminals are immaterial), the grammar is read through
+`C03.tokenView`; the equivalence is about the two dumped tables themselves. -/
+theorem merged_pair_equivalent_up_to_names (g : Grammar) (A B : Table) (renA renB : List (Nat × String))
+    (f : SMap) (auxA auxB : AuxMap) (P : List Prod) (ann : Ann) (start : Nat)
+    (hsim : simCheck (renameNT A renA) (renameNT B renB) f = true)
+    (hsafeB : tableSafe (renameNT B renB) = true) (hrelB : relOK g (renameNT B renB) auxB = true)
+    (hcovA : coverOK g (renameNT A renA) auxA P start = true)
+    (hokA : completeOK (renameNT A renA) P (auxAllow auxA) ann start = true)
+    (hnames : sameTerminals (renameNT A renA) (renameNT B renB) = true)
+    (toks : List Nat) (htoks : ∀ a, a ∈ toks → a < A.tokenCount ∧ a ≠ 0 ∧ isExtraSym B a = false) (t : PTree) :
+    (∃ fuel, runLoop A fuel { stack := [], toks := toks } = .accepted t) ↔
+    (∃ fuel, runLoop B fuel { stack := [], toks := toks } = .accepted t) :=
+  merged_tables_equivalent_renamed g A B renA renB f auxA auxB P ann start hsim hsafeB hrelB hcovA hokA hnames toks htoks t
+
 /-! ## non-vacuity: a table with a duplicated state and its merged version -/
 
 /-- `S → a | b`, with two copies (2 and 4) of the state after the token -/
